@@ -99,6 +99,9 @@ func gen(t *rapid.T) Case {
 
 // scenario is a freshly built device + driver for one operation.
 type scenario struct {
+	// ch: the session's channel (its exported reads are operations too)
+	ch *channel.Channel
+
 	pipe       *sim.Pipe
 	prepare    func() error                              // everything before the measured operation
 	op         func(perOp []util.Option) (string, error) // the operation under test
@@ -212,6 +215,7 @@ func build(c *Case) (*scenario, error) {
 		s.single = false
 		s.trailing = 1
 		s.prepare = func() error { return nil }
+		s.ch = d.Channel
 		s.closeF = func() { _ = d.Close() }
 		s.lines = dev.LineStrings
 		s.op = func([]util.Option) (string, error) { return "", d.Open() }
@@ -234,6 +238,7 @@ func build(c *Case) (*scenario, error) {
 
 			return e
 		}
+		s.ch = d.Channel
 		s.closeF = func() { _ = d.Close() }
 		s.trailing = 1
 		s.single = true
@@ -316,6 +321,7 @@ func build(c *Case) (*scenario, error) {
 		}
 
 		s.prepare = d.Open
+		s.ch = d.Channel
 		s.closeF = func() { _ = d.Close() }
 		s.trailing = 1
 		s.lines = dev.LineStrings
@@ -393,6 +399,7 @@ func build(c *Case) (*scenario, error) {
 			return nil, err
 		}
 
+		s.ch = d.Channel
 		s.closeF = func() {
 			done := make(chan struct{})
 			go func() { _ = d.Close(); close(done) }()
@@ -536,6 +543,7 @@ func build(c *Case) (*scenario, error) {
 		s.trailing = 1
 		s.prepare = func() error { return nil }
 		s.op = func([]util.Option) (string, error) { return "", d.Open() }
+		s.ch = d.Channel
 		s.closeF = func() { _ = d.Close() }
 	default:
 		return nil, fmt.Errorf("unknown op %s", c.Op)
